@@ -52,9 +52,9 @@ def shape_branches(shape):
             chain.append('stabilization/%d.%d.%d' % (v[0], v[1], STAB_MICRO))
         chain.append('development/' + vname(v))
     hot = []
-    if shape.hotfix == 'orphan':
+    if shape.hotfix in ('orphan', 'both'):
         hot.append('hotfix/4.2.17')
-    elif shape.hotfix == 'online':
+    if shape.hotfix in ('online', 'both'):
         v = [d for d in sorted(shape.devs, key=dev_sort_key)
              if d[1] is not None][0]
         hot.append('hotfix/%d.%d.2' % v)
